@@ -160,6 +160,27 @@ class StubSim(mosaik_api_v3.Simulator):
     def get_data(self, outputs):
         self._pre("get_data", (ctx.dc(outputs),))
         data = self._get_data_impl(outputs)
+        if any(f.get("kind") == "bad_reply" and f.get("sid") == self.sid and
+               f.get("value", {}).get("what") == "stale_time_reused_dict" for f in self.run.faults):
+            # this simulator fills one and the same dict object for every reply and states the
+            # output time explicitly (legal); at the fault it forgets to refresh 'time'
+            rd = self.__dict__.setdefault("_rd", {})
+            for k_ in [k_ for k_ in rd if k_ != "time"]:
+                del rd[k_]
+            rd.update({k_: v_ for k_, v_ in data.items() if k_ != "time"})
+            f_ = self._fault("get_data", self.cur_req, "reply")
+            if f_ is not None and f_["value"]["what"] == "stale_time_reused_dict" and \
+                    isinstance(self.__dict__.get("_rd_time"), int) and self._rd_time < self.time:
+                # (malformed only if the forgotten value is earlier than this step)
+                others = sum(1 for s_, x_ in self.run.in_flight.items() if x_ > 0 and s_ != self.sid)
+                self.run.rec("fault", "bad_reply", self.sid, "get_data", self.cur_req, others, f_["value"])
+                self.run.fault_state["fired"] = self.run.fault_state.get("fired", 0) + 1
+                self._post("get_data", ctx.dc(rd))
+            else:
+                rd["time"] = data.get("time", self.time)
+                self._rd_time = rd["time"]               # (what this simulator last wrote itself)
+                self._post("get_data", ctx.dc(data))     # (recorded like the fault-free reply)
+            return rd
         data = self._mangle("get_data", data)
         self._post("get_data", ctx.dc(data))
         return data
@@ -295,7 +316,7 @@ class StubSim(mosaik_api_v3.Simulator):
             run.fault_state["fired"] = run.fault_state.get("fired", 0) + 1
             run.in_flight[self.sid] = run.in_flight.get(self.sid, 1) - 1
             exc_cls = {"ValueError": ValueError, "TypeError": TypeError, "KeyError": KeyError,
-                       "RuntimeError": RuntimeError}.get(f.get("exc"), SimFault)
+                       "RuntimeError": RuntimeError, "StopIteration": StopIteration}.get(f.get("exc"), SimFault)
             raise exc_cls(f"injected failure in {self.sid}.{func} (request {n})")
         others = sum(1 for s, v in run.in_flight_mosaik.items() if v > 0 and s != self.sid)
         node = getattr(self, "_node", None)
@@ -318,7 +339,7 @@ class StubSim(mosaik_api_v3.Simulator):
 
     def _mangle(self, func, ret):
         f = self._fault(func, self.cur_req, "reply")
-        if f is None:
+        if f is None or f.get("func") not in (None, func):
             return ret
         run = self.run
         kind = f["kind"]
